@@ -154,3 +154,38 @@ Proof.
   - reflexivity.
   - intros rk Hk. vm_compute in Hk. injection Hk as <-. split; [vm_compute; reflexivity | intros _; vm_compute; reflexivity].
 Qed.
+
+(* ------------------------------------------------ a step that goes on to Destroy, stopped before *)
+From Sessions Require Import Proofs.CrashAny12.
+
+Definition ca_rd (crash : option nat) : reqstep :=
+  lk_rq 2 (PForge (CKey (KGen 0))) false [SSet 7 7; SRegen; SDestroy] crash.
+
+(* the completed step deletes (the old forms do not apply); the first 3 calls do not *)
+Example ca_destroy_log :
+  ~ no_deletes (ob_evs (snd (step ca_w (HReq (ca_rd None))))) /\
+  no_deletes (ev_prefix (ob_evs (snd (step ca_w (HReq (nocrash (ca_rd (Some 3)))))) ) 3) /\
+  length (filter is_call (ob_evs (snd (step ca_w (HReq (ca_rd None)))))) = 4.
+Proof.
+  split; [|split; [vm_compute; repeat constructor | vm_compute; reflexivity]].
+  intro H. assert (B : forallb (fun e => negb (CrashFault.is_delete e)) (ob_evs (snd (step ca_w (HReq (ca_rd None))))) = true).
+  { apply forallb_forall. intros e He. unfold no_deletes in H. rewrite Forall_forall in H. rewrite (H e He). reflexivity. }
+  vm_compute in B. discriminate B.
+Qed.
+
+Example ca_destroy_pre :
+  CrashChain.resolves_chain
+    (fun rd => CrashFault3.dat rd = [(1, 2)]%N \/ In (CrashFault3.dat rd) (script_data [(1, 2)]%N (rq_script (ca_rd None))))
+    (store (w_st (fst (step ca_w (HReq (ca_rd (Some 3))))))) (KGen 0).
+Proof.
+  destruct ca_world as (_ & _ & _ & Hp & Hg). destruct ca_destroy_log as (_ & Hnd & _).
+  destruct (lookup (store (w_st ca_w)) (last [KGen 1] (KGen 0))) as [rn|] eqn:Hrn; [|vm_compute in Hrn; discriminate].
+  assert (HD : CrashFault3.dat rn = [(1, 2)]%N) by (vm_compute in Hrn; injection Hrn as <-; reflexivity).
+  assert (H : CrashChain.resolves_chain
+    (fun rd => CrashFault3.dat rd = CrashFault3.dat rn \/ In (CrashFault3.dat rd) (script_data [(1, 2)]%N (rq_script (ca_rd (Some 3)))))
+    (store (w_st (fst (step ca_w (HReq (ca_rd (Some 3))))))) (KGen 0)); [|rewrite HD in H; exact H].
+  apply (presented_data_pre ca_w (ca_rd (Some 3)) 3 (KGen 0) [KGen 1] rn [(1, 2)]%N ca_LIx Hg eq_refl eq_refl Hnd eq_refl Hp Hrn).
+  - intros o ob Hin Ho Hr. rewrite HD. vm_compute in Hin.
+    destruct Hin as [Hin|[Hin|[]]]; [discriminate Hin|]. injection Hin as <-. vm_compute in Ho. injection Ho as <-. reflexivity.
+  - intros id0 rc0 Hs. vm_compute in Hs. injection Hs as _ <-. reflexivity.
+Qed.
